@@ -438,7 +438,7 @@ func (c *ControlPlane) RestartDNSListener() error {
 	return err
 }
 func (c *ControlPlane) PublishListenerSockets(l *Listener) error { return c.simple("publish") }
-func (c *ControlPlane) RebuildReloadDatapath() error            { return c.simple("rebuild") }
+func (c *ControlPlane) RebuildReloadDatapath() error             { return c.simple("rebuild") }
 func (c *ControlPlane) RunReloadRetirementCleanup(staleBeforeNs uint64) {
 	_ = c.simple("retire-cleanup")
 }
@@ -454,12 +454,16 @@ func (c *ControlPlane) EjectBpf() *bpfObjects {
 	c.Bpf = nil
 	return b
 }
-func (c *ControlPlane) InjectBpf(bpf *bpfObjects)                           { c.Bpf = bpf }
-func (c *ControlPlane) EjectLpmIndices() []uint32                           { return nil }
-func (c *ControlPlane) InheritLpmIndices(indices []uint32)                  {}
-func (c *ControlPlane) CloneDnsCache() map[string]*DnsCache                 { return map[string]*DnsCache{} }
-func (c *ControlPlane) SharesActiveDnsControllerWith(o *ControlPlane) bool  { return false }
-func (c *ControlPlane) ReuseDNSControllerFrom(previous *ControlPlane) bool  { return plan("reuse-dns-controller", c, nil).Flag }
-func (c *ControlPlane) ReuseDNSListenerFrom(previous *ControlPlane) bool    { return plan("reuse-dns-listener", c, nil).Flag }
-func (c *ControlPlane) SetPreparedDNSReuseHook(hook func() error)           { c.reuseHook = hook }
-func (c *ControlPlane) SetPreparedDNSStartHook(hook func() error)           { c.startHook = hook }
+func (c *ControlPlane) InjectBpf(bpf *bpfObjects)                          { c.Bpf = bpf }
+func (c *ControlPlane) EjectLpmIndices() []uint32                          { return nil }
+func (c *ControlPlane) InheritLpmIndices(indices []uint32)                 {}
+func (c *ControlPlane) CloneDnsCache() map[string]*DnsCache                { return map[string]*DnsCache{} }
+func (c *ControlPlane) SharesActiveDnsControllerWith(o *ControlPlane) bool { return false }
+func (c *ControlPlane) ReuseDNSControllerFrom(previous *ControlPlane) bool {
+	return plan("reuse-dns-controller", c, nil).Flag
+}
+func (c *ControlPlane) ReuseDNSListenerFrom(previous *ControlPlane) bool {
+	return plan("reuse-dns-listener", c, nil).Flag
+}
+func (c *ControlPlane) SetPreparedDNSReuseHook(hook func() error) { c.reuseHook = hook }
+func (c *ControlPlane) SetPreparedDNSStartHook(hook func() error) { c.startHook = hook }
